@@ -800,10 +800,6 @@ namespace ip {
 			}
 			case aux::packet::type_t::ack:
 			{
-				// if the socket just became writeable, we need to notify the
-				// client. First we want to know whether it was not writeable.
-				const bool was_writeable = m_bytes_in_flight + m_mss > m_cwnd;
-
 				auto it = m_outstanding_packet_sizes.find(p.seq_nr);
 				assert(it != m_outstanding_packet_sizes.end());
 				const int acked_bytes = it->second;
@@ -832,9 +828,13 @@ namespace ip {
 
 				// TODO: implement slow-start
 
+				// if the socket is writeable, notify a client blocked in a write.
+				// Whether it was writeable before this ACK doesn't tell whether
+				// the writer is still waiting: a dropped segment frees window
+				// too, without anybody being woken up
 				const bool is_writeable = m_bytes_in_flight + m_mss <= m_cwnd;
 
-				if (!was_writeable && is_writeable)
+				if (is_writeable)
 					maybe_wakeup_writer();
 
 				return;
